@@ -88,7 +88,16 @@ def cases(tier, seed):
               "iwc": iw, "irr": {"method": 0, "kw": {}, "schedule": None}}
         if gw:
             sp["gw"] = gw
-        out.append({"spec": sp})
+        c = {"spec": sp}
+        if i % 10 == 7:
+            # net irrigation refills the root zone on the planting day (= first day of the run)
+            sp["irr"] = {"method": 4, "kw": {"NetIrrSMT": float(gen.pick(rng, [70, 80, 95]))}, "schedule": None}
+            nl = gen.soil_layers(s)
+            if iw["wc_type"] != "Num":
+                sp["iwc"] = {"wc_type": "Pct", "method": "Layer", "depth_layer": list(range(1, nl + 1)),
+                             "value": [float(gen.pick(rng, [10, 25, 40])) for _ in range(nl)]}
+            c["step_after"] = True
+        out.append(c)
     return out
 
 
@@ -242,7 +251,7 @@ def run_case(case):
     # ---- initial water content ----------------------------------------------------------------
     iw = spec["iwc"]
     cov[f"iwc_{iw['wc_type']}_{iw['method']}"] += 1
-    th = np.asarray(model._init_cond.th, float)
+    th = np.array(model._init_cond.th, dtype=float)      # a copy: the model goes on writing into its own array
     refdz = np.round(np.cumsum(dz), 2)
 
     def value_for(layer_j, v):
@@ -284,6 +293,27 @@ def run_case(case):
         acc.add("initial-water-content", f"compartment {i}: initial water content {th[i] if len(th) == n else None!r}, the "
                 f"specification ({iw['wc_type']}/{iw['method']} {iw['depth_layer']} -> {iw['value']}) gives {want[i]!r}",
                 dict(comp=i, got=float(th[i]) if len(th) == n else None, want=float(want[i]), iwc=iw), feats)
+    if case.get("step_after") and len(th) == n:
+        # the profile the model keeps as "the configured initial content" (season resets go back to
+        # it) must still be the requested one after the first days have been simulated
+        try:
+            I.watchdog_arm(2_000_000)
+            with np.errstate(all="ignore"):
+                model.run_model(num_steps=3, initialize_model=False)
+            I.watchdog_disarm()
+            kept = np.asarray(model._init_cond.thini, float)
+            cov["stored_initial_content_checks"] += 1
+            if len(kept) != n or np.any(np.abs(kept - th) > 1e-12):
+                i = int(np.argmax(np.abs(kept - th))) if len(kept) == n else 0
+                acc.add("stored-initial-content", f"after three simulated days the stored initial water content of compartment {i} "
+                        f"is {kept[i] if len(kept) == n else None!r}; it was initialised to {th[i]!r}",
+                        dict(comp=i, after=float(kept[i]) if len(kept) == n else None, at_init=float(th[i])), feats)
+        except I.HarnessTimeout:
+            raise
+        except Exception:  # noqa: BLE001 - failures while stepping are C16's business
+            cov["stored_initial_content_step_failed"] += 1
+        finally:
+            I.watchdog_disarm()
     res.status = "ok"
     out = base.finish(spec, res, acc, True, sample_extra={"compartments": n, "deepened": bool(deepened),
                                                           "dz": dz.tolist()[:6], "layers": len(lay)})
